@@ -28,8 +28,14 @@ func Harness_C17_code_quota() {
 	verif_Quiesce()
 	n, err := w.repo.CountActiveByTargetClient(3001)
 	verif_Assert("C17.code.count", err == nil)
+	// the codes the store really holds (by-id records), whatever the per-client index says
+	recs, _ := w.st.Storage.QueryByPrefix("tunnox:runtime:conncode:id:", 0)
+	stored := len(recs)
 	verif_Known("C17-code-quota-check-then-create", e1 == nil && e2 == nil)
-	verif_Assert("C17.code.never_exceeded", n <= limit)
+	verif_Assert("C17.code.never_exceeded", n <= limit && stored <= limit)
+	// every stored active code is counted: a code the quota check cannot see would let later
+	// (even sequential) creations exceed the quota for good
+	verif_Assert("C17.code.all_stored_codes_counted", n == stored)
 	verif_Cover("C17.code.done")
 }
 
